@@ -43,7 +43,10 @@ def gen_keys(rng):
         dt = rng.choice(["number", "text"])
         if dt == "number":
             sel = rng.choice([path([step("attribute", t_name("k1"))]), path([step("attribute", t_name("k3"))]), fn("string-length", path([step("self", T_NODE)])),
-                              bin_("-", num(0), path([step("attribute", t_name("k1"))])), fn("position"), fn("count", path([step("attribute", T_ANY)]))])
+                              bin_("-", num(0), path([step("attribute", t_name("k1"))])), fn("position"), fn("count", path([step("attribute", T_ANY)])),
+                              # keys that are not numbers as objects: the key is the STRING of the value, converted to a number (a boolean is NaN, an infinity too)
+                              bin_(">", path([step("attribute", t_name("k1"))]), num(2)), fn("boolean", path([step("attribute", t_name("k3"))])),
+                              bin_("div", bin_("-", path([step("attribute", t_name("k1"))]), num(2)), num(0))])
         else:
             sel = rng.choice([path([step("attribute", t_name("k2"))]), path([step("self", T_NODE)]), fn("name"), fn("concat", path([step("attribute", t_name("k2"))]), lit("a")),
                               path([step("attribute", t_name("k1"))]) if False else path([step("attribute", t_name("k2"))])])
